@@ -20,7 +20,7 @@ GRAMMAR = re.compile(r"^ClientConnected( ClientRequested( ServerConnecting( Conn
 
 async def population(out, rng, seed, P, oport, closed, uport, n, truth, io_name, hold_evt):
     """runs n mixed connections; fills truth[src_port] = dict(...)"""
-    kinds = ["ok", "ok", "ok", "ok-early", "ok-early", "deny", "refused", "abort-before", "abort-during", "abort-after", "garbage", "tls-fail", "udp", "ok-tls", "ok-socks4", "ok-rev", "ok-upearly", "ok-upearly", "ok-backpressure", "ok-lb", "refused-lb", "ok-v6"]
+    kinds = ["ok", "ok", "ok", "ok-early", "ok-early", "deny", "refused", "abort-before", "abort-during", "abort-after", "garbage", "tls-fail", "udp", "ok-tls", "ok-socks4", "ok-rev", "ok-upearly", "ok-upearly", "ok-backpressure", "ok-lb", "refused-lb", "ok-v6", "udp-unsupported"]
 
     async def one(i):
         kind = rng.choice(kinds)
@@ -217,6 +217,22 @@ async def population(out, rng, seed, P, oport, closed, uport, n, truth, io_name,
                 rec.update(src=c.local[1], outcome="no-record", listener="https")
                 truth[rec["src"]] = rec
                 try:
+                    await c.read_all(timeout=3)
+                except Exception:
+                    pass
+                c.close()
+            elif kind == "udp-unsupported":
+                # a UDP association asked of a listener whose rule selects an upstream that can not carry UDP (a balancer): refused,
+                # and accounted for like every other refused request
+                from .lib import http_connect_bytes, http_reply
+                c = await open_conn("127.0.0.1", P["httplb"])
+                rec.update(listener="httplb", src=c.local[1], target="0.0.0.0:0", outcome="error")
+                truth[rec["src"]] = rec
+                c.write(http_connect_bytes("0.0.0.0", 0, [("Proxy-Protocol", "udp")]))
+                await c.drain()
+                try:
+                    st, _ = await asyncio.wait_for(http_reply(c), 5)
+                    rec.update(status=st)
                     await c.read_all(timeout=3)
                 except Exception:
                     pass
